@@ -1,6 +1,7 @@
 import PgBifrost.Driver.Ledger
 import PgBifrost.Driver.Batcher
 import PgBifrost.Driver.Filter
+import PgBifrost.Driver.Partitioner
 /-! `bfmodel`: line-protocol driver for the executable models (core Lean only, so it links).
 One request line in, one answer line out. First word selects the model. -/
 open PgBifrost
@@ -11,6 +12,7 @@ structure DriverState where
   batcher : Driver.Batcher.DState := {}
   batch : Driver.Batcher.BState := {}
   filter : Driver.Filter.DState := ⟨false, false, []⟩
+  partitioner : Driver.Partitioner.DState := {}
 
 def dispatch (st : DriverState) (line : String) : DriverState × String :=
   match Util.words line with
@@ -19,6 +21,7 @@ def dispatch (st : DriverState) (line : String) : DriverState × String :=
   | "batcher" :: args => let (s, out) := Driver.Batcher.handle st.batcher args; ({ st with batcher := s }, out)
   | "batch" :: args => let (s, out) := Driver.Batcher.batchHandle st.batch args; ({ st with batch := s }, out)
   | "filter" :: args => let (s, out) := Driver.Filter.handle st.filter args; ({ st with filter := s }, out)
+  | "partitioner" :: args => let (s, out) := Driver.Partitioner.handle st.partitioner args; ({ st with partitioner := s }, out)
   | "cli" :: args => (st, Driver.Filter.cliHandle args)
   | "crc" :: args => (st, Driver.Batcher.crcHandle args)
   | ["ping"] => (st, "pong")
